@@ -86,6 +86,11 @@ add("C15", "exploration",
     "dry-run signature map read through a counted harness wrapper on an internal helper",
     "runtime monitoring: side-effect monitor (log, Store calls, tree hash) + twin-run signature comparison", "E1-pipeline")
 
+add("C14", "exploration",
+    "Boundary monitor: for leaf modules at depth 1-6, every accepted dotted prefix (and none), accept sets of 1-40 names in both registration orders and 3 import forms, the Store.sync_paths signature map and the value are observed in fresh processes before and after an edit of the leaf function / leaf variable / a non-accepted sibling's function / variable; oracle = signatures change iff the edited module is covered by an accepted name, and the value follows; data functions in non-accepted modules must be refused with a DDS error naming the module, never run. Held on the configurations observed.",
+    "ground truth = dotted-prefix coverage of the edited module by the accepted names",
+    "runtime monitoring: before/after signature-map monitor across the accepted-module boundary", "E1-pipeline")
+
 NOT_YET = {}
 
 
